@@ -416,6 +416,7 @@ def run(ctx):
     base_scope_lookups(ctx)
     literal_operator_recorded(ctx)
     sign_printing(ctx)
+    scope_peels_const_and_typedef_together(ctx)
     rebuild_rules(ctx, "R06.5")
     changed_flag_rules(ctx, "R06.6")
     ctx.rule("R06.1", "every field a (non-copy) constructor initialises from a parameter is read by the class's structural is_less() and is_equal()")
@@ -716,3 +717,42 @@ def sign_printing(ctx):
                 why += "" if tests else " - but never tested"
             ctx.ob("R06.11", "output|%s|sign-kept-apart" % "+".join(hit), ok, fn.loc(stmts[0]), why)
     ctx.floor("R06.11", "sign arms of the unary printer", n, 1)
+
+
+def scope_peels_const_and_typedef_together(ctx):
+    """R06.12: `typename C::value_type` is resolved by looking `value_type` up in the scope of the class C names.  C may
+    be written through any stack of typedef and const layers (`const TraitsAlias`, a typedef of a const type, ...);
+    CPPScope::find_scope - both overloads, the plain one and the one used while a template is instantiated - reduces the
+    type with ONE loop that continues while the type is const OR a typedef.  Peeling "typedefs, then one const" misses
+    `const <typedef-name>`; the dependent name then stays unresolved and the member is printed with the template
+    parameter's spelling.  (Seed S6-C06.)"""
+    db = ctx.db
+    ctx.rule("R06.12", "in every CPPScope::find_scope overload each step that strips a typedef (->_type) or a const (->_wrapped_around) from the type found sits in a loop whose condition tests for both ST_typedef and ST_const")
+    n = 0
+    for f in db.fns("CPPScope::find_scope"):
+        loops = [lp for lp in f.walk() if lp.get("k") in ("while", "for", "do")]
+        for y in f.walk():
+            t = assigned_target(y)
+            if not t:
+                continue
+            kinds = set()
+            for z in walk(t[1]):
+                if z.get("k") == "mem":
+                    nm = z.get("n") or ""
+                    if nm.endswith("CPPTypedefType::_type"):
+                        kinds.add("typedef")
+                    elif nm.endswith("CPPConstType::_wrapped_around"):
+                        kinds.add("const")
+            if not kinds:
+                continue
+            n += 1
+            ok = False
+            for lp in loops:
+                if not any(x is y for x in walk(lp.get("body") or {})):
+                    continue
+                names = {(z.get("n") or "").split("::")[-1] for z in walk(lp.get("c") or {}) if z.get("k") == "ref" and z.get("dk") == "enumc"}
+                if {"ST_const", "ST_typedef"} <= names:
+                    ok = True
+            ctx.ob("R06.12", "CPPScope::find_scope(%d)|strip-%s|in-joint-loop" % (len(f.params), "+".join(sorted(kinds))), ok, f.loc(y),
+                   "`%s` is %sinside a loop that runs while the type is const or a typedef" % (show(y)[:60], "" if ok else "NOT "))
+    ctx.floor("R06.12", "const/typedef stripping steps in find_scope", n, 4)
